@@ -149,6 +149,9 @@ class Runner:
         elif name == "monitor":
             st = uwg(tag).put()
             lk.add_structure_to_monitors(st, name=f"M{tag}")
+            # the declaration must have reached the innermost active solver (whatever the nesting depth)
+            if lk.sol_list[-1].monitor_st.get(st) != f"M{tag}":
+                self.misdirected = True
         elif name == "raise_pins":
             lk.PhaseShifter(param_name=f"R{tag}").pin_mapping({Pin("a0"): Pin(f"ra{tag}"), Pin("b0"): Pin(f"rb{tag}")}).put()
             lk.raise_pins()
